@@ -139,10 +139,10 @@ impl<'a> ChainNotifier<'a> {
         lemma_anc_step(current_header.block_hash, c0.block_hash, current.block_hash);
         if current.block_hash != c0.block_hash { assert(connected_blocks@ == cb0.push(c0)); }
     }
-//@mutant walk_only_the_new_chain
-    if current_height <= previous_height {
+//@mutant wrong_block_recorded_as_connected
+    connected_blocks.push(current);
 //@with
-    if current_height < previous_height {
+    connected_blocks.push(previous);
 //@mutant connected_block_dropped
     connected_blocks.push(current); current =
 //@with
